@@ -30,6 +30,8 @@ def families(facts):
         for k in facts.kinds:
             if k in Q.OP_KINDS:
                 continue
+            if k == "Call" and d != "odata":
+                continue        # SQL calls: per-function families (C09) + the foreign-namespace family below
             fams.append(f"text[{d}][{k}]")
         fams.append(f"text[{d}][Call:<foreign namespace>]")
     for b in O.BACKENDS:
@@ -73,7 +75,16 @@ def run_family(facts, fam, tier):
         inner = fam[len("text["):-1]
         dkey, kind = inner.split("][")
         C09.KNOWN = []
-        if kind == "Call:<foreign namespace>":
+        cls = Q.VISITORS[dkey][0]
+        if kind in facts.kinds and kind not in Q.handled_kinds(facts, cls):
+            # no handler: NodeVisitor.visit falls through to generic_visit, whose result is None (proved in C16: the
+            # default visitor returns None) -- not a translation and not a refusal
+            gv = facts.classes[cls]["members"]["generic_visit"]
+            rs = [{"name": f"C12:{dkey}:{gv['qualname']}[{kind}]:post.wf", "clause": "post.wf", "status": "refuted", "seconds": 0.0,
+                   "backend": "finite-check", "source": Q.src_of(gv), "what": kind, "dialect": dkey,
+                   "info": {"problem": f"no visit_{kind}: the generic visitor returns None"},
+                   "witness": {"e": {"node": kind, "fields": {}}}, "solver_output": f"class {cls} has no member visit_{kind}"}]
+        elif kind == "Call:<foreign namespace>":
             rs = text_foreign_call(c, facts, dkey, timeout)
         elif dkey == "odata" and kind in ("Identifier", "Attribute", "Call", "NamedParam", "Lambda", "CollectionLambda"):
             C13.KNOWN = []
